@@ -97,6 +97,12 @@ def _one(chk, fi, ex, rules):
                         "a step of a NOT selected scenario is recorded as undefined: the run fails although "
                         "nothing went wrong in the selected part (false red)"))
 
+        if selected is not False and f["undefined_added"] and dry is False and ret is False:
+            chk.fail(_f("V2", fi, ex, "undefined-recorded-without-failure",
+                        "a step is recorded in runner.undefined_steps (which alone makes the run fail) on a path where the "
+                        "scenario itself did not fail - no step failed before it (false red, e.g. after a step skipped the "
+                        "rest of its scenario)"))
+
     if "S3" in rules:
         if f["s3_err"]:
             chk.fail(_f("S3", fi, ex, f["s3_err"], f["s3_err"]))
